@@ -8,6 +8,8 @@ from . import rules_wasm as Wm
 from . import rules_wasm_pe as Wp
 from . import rules_purity as P
 from . import rules_purity_pe as Pp
+from . import rules_score_pe as Sp
+from . import rules_gf_pe as Gp
 from . import rules_term as Tm
 from . import witness, fixture
 from .core import soft_if
@@ -173,15 +175,16 @@ def C06(ctx):
 def C07(ctx):
     f = ctx.facts("default")
     lay, dcw, deg, tot = tables_core(ctx, f)
+    d_div = Gp.c07_r3(ctx, f)
     T.c07_t1(ctx, f)
-    T.c07_r1(ctx, f, lay, deg)
-    x("c07_r2", ctx, f)
+    T.c07_r1(soft_if(ctx, d_div, "C07.R3"), f, lay, deg)
+    x("c07_r2", soft_if(ctx, d_div, "C07.R3"), f)
     E.c02_r2(ctx, f)
     d_il = G.c02_r4(ctx, f)
     x("c02_r3", soft_if(ctx, d_il, "C02.R4"), f)
     return dict(
         level="other",
-        explanation="510 reachable GF(256)/0x11D table cells, 13 generator polynomials recomputed from the definition, the 160-cell degree map, buffer obligations of the division (block + generator fit for every cell), the set of coefficient values for which the division step is skipped (exactly {0}, over all 256 byte values), the one-step algebra rem[i+j] ^= exp[(g[j] + log rem[i]) mod 255], and the exact position of every block's EC codewords in the final sequence (C02.R4). Not decided: that iterating the step yields the remainder for every content (a linear-map identity over 256^k contents).",
+        explanation="By partial evaluation (C07.R3): polynomials::division, given the crate's own generator for each of the 13 degrees in use and the shortest and longest block length of that degree (all lengths in the thorough tier), returns the GF(2^8)/0x11D remainder of block(x).x^degree by g(x) in the cells the interleaver reads, for every single-nonzero-byte block at the last position (all 255 values: one step of the loop), spread values at the first and a middle position (the step iterated over the whole block), blocks with leading and interior zeros, and fixed dense blocks. Also: 510 reachable table cells, 13 generator polynomials recomputed from the definition, the 160-cell degree map, buffer obligations of the division, the set of coefficient values for which the step is skipped (exactly {0}), the one-step algebra rem[i+j] ^= exp[(g[j] + log rem[i]) mod 255] when the loop is written in a readable shape, and the exact position of every block's EC codewords in the final sequence (C02.R4). Not decided: additivity of the implemented map over all 256^k contents (it follows from the uniform xor step, which C07.R2 reads when it can).",
     )
 
 
@@ -255,19 +258,24 @@ def C10(ctx):
 def C11(ctx):
     f = ctx.facts("default")
     d_sel = G.c11_r8(ctx, f)
+    d_score = Sp.c11_r9(ctx, f)
     # R2 (each candidate ranked by its own penalty) stays a hard rule: it carries the known finding D1
-    R.c11_rules(soft_if(ctx, d_sel, "C11.R8", only={"C11.R1", "C11.R3", "C11.R4"}), f)
+    R.c11_rules(soft_if(soft_if(ctx, d_sel, "C11.R8", only={"C11.R1", "C11.R3", "C11.R4"}), d_score, "C11.R9", only={"C11.R5"}), f)
     G.c11_d1_if_missing(ctx, f)
     T.c11_t1(ctx, f)
-    x("c11_r6", ctx, f)
+    x("c11_r6", soft_if(ctx, d_score, "C11.R9"), f)
     x("c11_r7", ctx, f)
     return dict(
         level="other",
-        explanation="All eight masks are tried, each candidate must be ranked by a penalty every argument of which depends on that "
-                    "masked candidate, the best is updated only on a strictly lower score starting from u32::MAX, a forced mask "
-                    "overrides, the total adds all five components, the dark-ratio table is right on reachable cells. "
-                    "KNOWN FINDING D1: the column terms are computed on an unmasked transposed copy. Not decided: the component "
-                    "scorers' run/window/2x2 arithmetic.",
+        explanation="Selection (C11.R8, by partial evaluation with an oracle for the penalties): all eight masks are tried on the placed "
+                    "matrix, the emitted mask has minimal penalty (first minimum on ties) unless one is forced, and it is the mask "
+                    "written, applied and reported. Penalty terms (C11.R9, by partial evaluation on complete small domains): "
+                    "score::line on every line up to length 11 of data modules and every mixed-label line up to length 6, the 2x2 "
+                    "block term on every 2x2 symbol and 3x3 families, the dark-ratio step on every percentage 0..99, and the total "
+                    "as rows + columns + blocks + ratio of (candidate, second argument); longer lines follow from the uniform loop "
+                    "body, which is not separately proved. Shape rules: every argument of the penalty depends on the masked "
+                    "candidate (R2), candidate freshness across iterations (R7), the dark-ratio table on reachable cells (T1). "
+                    "KNOWN FINDING D1: the column terms are computed on an unmasked transposed copy.",
     )
 
 
